@@ -62,8 +62,10 @@ def rand_case(rng, n=None, K=None, C=None, shape=None, big=False):
 
 def gen(rng, tier):
     cases = []
-    for k in range({"quick": 26, "search": 60, "thorough": 200}[tier]):
-        cases.append(rand_case(rng, big=(tier == "thorough" or k % 6 == 5)))
+    for k in range({"quick": 26, "search": 60, "thorough": 120}[tier]):
+        # the implementation's ADD path costs up to minutes per instance at 5 units x 5 rows x K=3 x 3 classes: a third of the
+        # thorough cases (a sixth of the quick ones) are of that size
+        cases.append(rand_case(rng, big=(k % 3 == 2 if tier == "thorough" else k % 6 == 5)))
     for k in range({"quick": 6, "search": 10, "thorough": 40}[tier]):
         c = rand_case(rng, n=rng.randint(2, 4), C=2, shape="onerow")
         c["utility"] = "accuracy"
